@@ -5,12 +5,9 @@
 From TV Require Import Base.Prelude Base.Utf8 Base.Winnow Gen.Consts.
 From TV Require Import Model.Trivia Model.Strings Model.Write.
 
-(* TomlStringBuilder::new(s).as_<style>().to_toml_value() in a release build (u8 counters wrap) *)
+(* TomlStringBuilder::new(s).as_<style>().to_toml_value() *)
 Definition write_string (st : vstyle) (s : bytes) : option bytes :=
-  match vmetrics_of true s with
-  | WOk m => write_string_m st s m
-  | WOverflow => None
-  end.
+  write_string_m st s (vmetrics_of s).
 
 (* the input a parser leaves behind after consuming the token `t` from `t ++ r` *)
 Definition after (t r : bytes) (p : N) (d : nat) : input := mkIn r (p + N.of_nat (length t))%N d.
